@@ -224,7 +224,10 @@ def main():
         results = [process_top(jobs[0])]
     else:
         with cf.ProcessPoolExecutor(max_workers=outer) as pool:
-            results = list(pool.map(process_top, jobs))
+            for out_ in pool.map(process_top, jobs):
+                results.append(out_)
+                if os.environ.get('PYVC_PROGRESS'):
+                    print(f'  .. {out_["key"]} gen={out_.get("gen_s", 0):.1f}s wall={out_.get("wall_s", 0):.1f}s err={bool(out_.get("error"))}', file=sys.stderr, flush=True)
 
     known = load_known(prop)
     lock = load_lock()
@@ -266,6 +269,8 @@ def main():
             if e.get('disagree'):
                 errors.append(f'{name}: solvers disagree: {e["details"]}')
                 continue
+            if e.get('kind') == 'bounded' and not e['refuted']:
+                continue  # bounded stand-ins are reported under `bounded`, never counted as discharged
             if e['refuted']:
                 # triage by replay
                 handled = False
